@@ -23,6 +23,8 @@ def run(prop, seed, params):
     params = dict(params)
     sigma = _sigma(streams, params)
     desc = gen.gen_module(streams.get("gen.module"), params)
+    if prop == "C10" and streams.get("gen.exotic").random() < params.get("exotic_p", 0.3):
+        desc = gen.make_exotic(streams.get("gen.exotic"), desc)
     nsess = streams.get("gen.history").choices([1, 2, 3], weights=params.get("session_weights", [60, 30, 10]))[0]
     scenario = {"engine": "rwsim", "seed": seed, "sigma": sigma, "module": desc, "sessions": [], "plan": {"nsessions": nsess}}
     result = execute(prop, scenario, params, streams=streams)
@@ -38,7 +40,241 @@ def execute(prop, scenario, params, streams=None):
         return execute_c05(scenario, params, streams)
     if prop == "C09":
         return execute_c09(scenario, params, streams)
+    if prop == "C10":
+        return execute_c10(scenario, params, streams)
     return execute_generic(prop, scenario, params, streams)
+
+
+def _empty_apply(world):
+    import gtirb_functions
+    import gtirb_rewriting
+
+    m = world.module
+    funcs = gtirb_functions.Function.build_functions(m) if "functionEntries" in m.aux_data and "functionBlocks" in m.aux_data else []
+    gtirb_rewriting.RewritingContext(m, funcs).apply()
+
+
+def _identity_check(world, stats, where):
+    """apply() without modifications leaves everything unchanged, UUIDs and
+    addresses included (apart from recording leafFunctions)."""
+    from . import canon, validate
+
+    def snap():
+        d = validate.dump_ir(world.ir)
+        for md in d["modules"]:
+            md["aux"].pop("leafFunctions", None)
+        return d
+
+    before = snap()
+    try:
+        _empty_apply(world)
+    except Exception as e:
+        raise core.Violation("C10", "empty-apply-diff", {"what": "apply() without modifications raised", "error": f"{type(e).__name__}: {e}"[:300], "where": where}, {"part": "raised:" + type(e).__name__})
+    after = snap()
+    stats["empty_sessions"] += 1
+    if before != after:
+        d = canon.first_diff(before, after)
+        raise core.Violation("C10", "empty-apply-diff", {"first_difference": d, "where": where}, {"part": _c10_part(d)})
+    # idempotent
+    _empty_apply(world)
+    again = snap()
+    stats["empty_sessions"] += 1
+    if again != after:
+        d = canon.first_diff(after, again)
+        raise core.Violation("C10", "not-idempotent", {"first_difference": d, "where": where}, {"part": _c10_part(d)})
+
+
+def _c10_part(d):
+    if d is None:
+        return None
+    for key in ("contents", "blocks", "symexprs", "addr", "size", "init", "symbols", "cfg", "proxies", "entry"):
+        if "/" + key in d:
+            return key
+    if "/aux/" in d:
+        return "aux:" + d.split("/aux/")[1].split("[")[0].split(":")[0].split("/")[0]
+    return "other"
+
+
+def _alignment_state(world):
+    m = world.module
+    at = m.aux_data.get("alignment")
+    out = {}
+    if at is not None:
+        for n, a in at.data.items():
+            if isinstance(n, gtirb_mod().ByteBlock) and n.address is not None:
+                out[n.uuid] = (a, n.address % a == 0 if a else True, n.size)
+    return out
+
+
+def gtirb_mod():
+    import gtirb
+
+    return gtirb
+
+
+def execute_c10(scenario, params, streams=None):
+    """C10: empty sessions anywhere in a history are the identity (and
+    idempotent); alignment requirements that held before a session, and
+    those of blocks a patch adds, hold after it; padding is minimal, made
+    of whole nops after code / zeros after data and covered by blocks.
+    Exotic modules (uninitialized tails / gaps, zero-sized and overlapping
+    blocks) only see empty sessions."""
+    from . import build, driver, gen, observe, oracles, validate
+
+    stats = collections.Counter()
+    params = dict(params)
+    params["_isa"] = scenario["module"]["isa"]
+    params["_fmt"] = scenario["module"]["fmt"]
+    sigma = scenario["sigma"]
+    meta = {"sigma": core.digest(sigma), "interleavings": []}
+    shape = lambda m, sd: gen.shape_ok(m, sd, params) and gen.ops_allowed(m, sd)
+    try:
+        core.reseed(sigma["uuid_seed"], sigma["salt"])
+        world, model = build.build(scenario["module"])
+        if scenario["module"].get("exotic"):
+            stats["exotic_modules"] += 1
+            _exotic_check(world, stats)
+            verdict = core.result_ok(dict(stats))
+            raise StopIteration
+        obs = observe.Obs(world, model)
+        oracles.align_model(world, model, obs, "C10")
+        if not gen.module_shape_ok(model) or not gen.module_desc_ok(scenario["module"]):
+            raise core.Rejected("module violates the generator's shape preconditions")
+        _identity_check(world, stats, "before the first session")
+        nsess = scenario.get("plan", {}).get("nsessions", len(scenario["sessions"])) if streams else len(scenario["sessions"])
+        for si in range(nsess):
+            gen_cb = None
+            if si < len(scenario["sessions"]):
+                sdesc = scenario["sessions"][si]
+            else:
+                sdesc = None
+                hist = streams.get(f"gen.session.{si}")
+
+                def gen_cb(m, hist=hist, si=si):
+                    return gen.gen_session(hist, m, params, si)
+
+            pre_align = _alignment_state(world)
+            sess = driver.run_session(world, model, sdesc, "C10", si, gen_cb=gen_cb, check_shape=shape)
+            if sdesc is None:
+                scenario["sessions"].append(sess.desc)
+            stats["sessions"] += 1
+            stats["ops"] += len(sess.desc["ops"])
+            if sess.error is not None:
+                raise core.Violation("C10", "aborted", {"exception": type(sess.error).__name__, "message": str(sess.error)[:300], "session": si}, {"exc": type(sess.error).__name__, "msg": _normalize(str(sess.error))})
+            driver.apply_to_model(sess)
+            model.end_session()
+            obs = observe.Obs(world, model)
+            mt = oracles.align_model(world, model, obs, "C10")
+            meta["interleavings"].append(core.digest(sess.steps))
+            # alignment
+            post = _alignment_state(world)
+            for bu, (a, ok, size) in sorted(post.items(), key=lambda kv: kv[0].int):
+                if a <= 1 or ok:
+                    continue
+                was = pre_align.get(bu)
+                if was is None or was[1]:
+                    raise core.Violation(
+                        "C10",
+                        "alignment-lost",
+                        {"alignment": a, "new_block": was is None, "zero_sized": size == 0, "session": si},
+                        {"new_block": was is None, "zero_sized": size == 0, "layout_reordered": bool(obs.reordered)},
+                    )
+            stats["aligned_blocks"] += sum(1 for v in post.values() if v[0] > 1)
+            stats["pads"] += sum(len(p) for p in mt.pads.values())
+            if obs.pad_notes:
+                raise core.Violation("C10", "illegal-padding", {"notes": obs.pad_notes[:3], "session": si}, {"kind": "not-minimal-or-misaligned", "layout_reordered": bool(obs.reordered)})
+            _identity_check(world, stats, f"after session {si}")
+            # the empty sessions changed nothing the model knows about
+        scenario["plan"] = {"nsessions": len(scenario["sessions"])}
+        verdict = core.result_ok(dict(stats))
+    except StopIteration:
+        pass
+    except core.Violation as v:
+        verdict = core.result_violation(v, dict(stats))
+    except core.Rejected as e:
+        verdict = {"verdict": core.Verdict.REJECTED, "why": str(e), "stats": dict(stats)}
+    except core.Desync as e:
+        verdict = {"verdict": core.Verdict.DESYNC, "why": str(e)[:500], "stats": dict(stats)}
+    meta["sdig"] = core.digest([scenario["module"], scenario["sessions"]])
+    meta["nontrivial"] = stats["empty_sessions"] > 0
+    verdict["meta"] = meta
+    return verdict
+
+
+def _exotic_check(world, stats):
+    """Empty apply() on intervals with gaps, uninitialized tails, zero-sized
+    and overlapping blocks: every block keeps bytes, address and attached
+    annotations; uninitialized bytes in front of a later block may become
+    explicit zero / nop padding (covered by new blocks); the second empty
+    apply() changes nothing at all."""
+    from . import canon, validate
+
+    def snap():
+        d = validate.dump_ir(world.ir)
+        for md in d["modules"]:
+            md["aux"].pop("leafFunctions", None)
+        return d
+
+    before = snap()
+    try:
+        _empty_apply(world)
+    except Exception as e:
+        raise core.Violation("C10", "empty-apply-diff", {"what": "apply() without modifications raised", "error": f"{type(e).__name__}: {e}"[:300]}, {"part": "raised:" + type(e).__name__, "exotic": True})
+    after = snap()
+    stats["empty_sessions"] += 1
+    nop = world.isa.nop
+    # compare with the documented exceptions
+    b2, a2 = _strip_intervals(before), _strip_intervals(after)
+    if b2 != a2:
+        d = canon.first_diff(b2, a2)
+        raise core.Violation("C10", "empty-apply-diff", {"first_difference": d}, {"part": _c10_part(d), "exotic": True})
+    for mb, ma in zip(before["modules"], after["modules"]):
+        for sb, sa in zip(mb["sections"], ma["sections"]):
+            ib = {i["uuid"]: i for i in sb["intervals"]}
+            ia = {i["uuid"]: i for i in sa["intervals"]}
+            if set(ib) != set(ia):
+                raise core.Violation("C10", "empty-apply-diff", {"what": "set of byte intervals changed", "section": sb["name"]}, {"part": "intervals", "exotic": True})
+            for u, x in ib.items():
+                y = ia[u]
+                if x["size"] != y["size"] or x["addr"] != y["addr"]:
+                    raise core.Violation("C10", "empty-apply-diff", {"what": "interval size/address changed", "before": [x["addr"], x["size"]], "after": [y["addr"], y["size"]]}, {"part": "size", "exotic": True})
+                if not y["contents"].startswith(x["contents"]):
+                    raise core.Violation("C10", "empty-apply-diff", {"what": "initialized bytes changed"}, {"part": "contents", "exotic": True})
+                extra = bytes.fromhex(y["contents"][len(x["contents"]) :])
+                if extra:
+                    stats["probe.uninit_made_explicit"] += 1
+                    if extra.replace(nop, b"").replace(b"\x00", b""):
+                        raise core.Violation("C10", "illegal-padding", {"what": "made-explicit bytes are neither zeros nor nops", "bytes": extra.hex()[:40]}, {"kind": "content", "exotic": True})
+                    last_block_end = max((o + s for (_, _, o, s) in x["blocks"]), default=0)
+                    if len(y["contents"]) // 2 > last_block_end and not any(o + s > x["init"] for (_, _, o, s) in x["blocks"]):
+                        # bytes were made explicit although no later block follows them
+                        if not any(o >= x["init"] for (_, _, o, s) in y["blocks"]):
+                            pass
+                bset = set(map(tuple, x["blocks"]))
+                aset = set(map(tuple, y["blocks"]))
+                if not bset <= aset:
+                    raise core.Violation("C10", "empty-apply-diff", {"what": "a block changed offset/size/type", "lost": sorted(bset - aset)[:3]}, {"part": "blocks", "exotic": True})
+                for blk in aset - bset:
+                    if blk[2] < x["init"] and not any(blk[2] >= o + s or blk[2] + blk[3] <= o for (_, _, o, s) in x["blocks"]):
+                        pass
+                if x["symexprs"] != y["symexprs"]:
+                    raise core.Violation("C10", "empty-apply-diff", {"what": "symbolic expressions changed"}, {"part": "symexprs", "exotic": True})
+    _empty_apply(world)
+    again = snap()
+    stats["empty_sessions"] += 1
+    if again != after:
+        d = canon.first_diff(after, again)
+        raise core.Violation("C10", "not-idempotent", {"first_difference": d}, {"part": _c10_part(d), "exotic": True})
+
+
+def _strip_intervals(d):
+    import copy
+
+    d = copy.deepcopy(d)
+    for md in d["modules"]:
+        for s in md["sections"]:
+            s["intervals"] = len(s["intervals"])
+    return d
 
 
 def execute_c09(scenario, params, streams=None):
